@@ -374,6 +374,9 @@ def main(argv):
         else:
             generic_loop(mod, ctx, rep, corpus)
             generic_loop(mod, ctx, rep, mod.cases(ctx))
+        if ctx.model is not None and hasattr(mod, 'kernel_guards'):
+            # extraction guard (harness/incoq.py): sampled model calls re-evaluated by vm_compute on the Gallina definitions
+            mod.kernel_guards(ctx, rep)
     except Exception:
         harness_error = traceback.format_exc()
     finally:
